@@ -323,6 +323,15 @@ pub fn gen(focus: &str, seed: u64, count: u64) -> Vec<String> {
             "C01" if g.chance(0.5) => c01_targeted(&mut g),
             "C01" if g.chance(0.5) => c01_aligned(&mut g),
             "C01a" => c01_aligned(&mut g),
+            "C13" if g.chance(0.1) => {
+                // two different molecules
+                let sh = |g: &mut Sm| -> String { if g.chance(0.25) { "circle".to_string() } else { lj_shape(g) } };
+                let (a, b) = (sh(&mut g), sh(&mut g));
+                let d = *g.pick(&[0.5, 1.5, 2.5, 3.2, 3.6, 4.2, 5.0, 6.5]) * g.range(0.9, 1.1);
+                let th = g.range(0., 2. * PI);
+                format!("mode=ljm a={} b={} t1={}:0.3:-0.2:{} t2={}:{}:{}:{}", a, b, fmt_f(g.range(0., 2. * PI)), g.below(2),
+                        fmt_f(g.range(0., 2. * PI)), fmt_f(0.3 + d * th.cos()), fmt_f(-0.2 + d * th.sin()), g.below(2))
+            }
             "C13" if g.chance(0.7) => lj2_case(&mut g),
             "C13" | "C03" => {
                 let group = *g.pick(&GROUPS);
@@ -389,6 +398,24 @@ pub fn gen(focus: &str, seed: u64, count: u64) -> Vec<String> {
                 }
             }
         };
+        // cells of the other crystal families (library / file states): hexagonal (60 degrees, equal sides), tetragonal;
+        // for C14 also a cell whose angle contradicts the family its group declares
+        let body = if (focus == "C02" || focus == "C14" || focus == "C11") && body.contains(" len=") && !body.contains("opt=") && !body.contains("mode=") {
+            let pick = g.below(100);
+            let set = |body: &str, angle: Option<f64>, ratio: Option<f64>, fam: Option<&str>| -> String {
+                let mut out: Vec<String> = body.split(' ').map(|t| {
+                    if t.starts_with("angle=") { if let Some(a) = angle { return format!("angle={}", fmt_f(a)); } }
+                    if t.starts_with("ratio=") { if let Some(r) = ratio { return format!("ratio={}", fmt_f(r)); } }
+                    t.to_string()
+                }).collect();
+                if let Some(f) = fam { out.push(format!("family={}", f)); }
+                out.join(" ")
+            };
+            if pick < 8 { set(&body, Some(PI / 3.), Some(1.), Some("Hexagonal")) }
+            else if pick < 12 { set(&body, Some(PI / 2.), Some(1.), Some("Tetragonal")) }
+            else if pick < 18 && focus == "C14" { let a = g.range(PI / 6., 2.6); set(&body, Some(a), None, None) }
+            else { body }
+        } else { body };
         // C11: values that came from single precision (every digit of them must survive the JSON text)
         let body = if focus == "C11" && g.chance(0.3) {
             body.split(' ')
